@@ -48,6 +48,9 @@ func VerifRequestRoundTrip() {
 	}
 	body := symapi.String("body", symapi.IntRange("nbody", 0, NB))
 	req.Body = body
+	if symapi.Bool("staleContentLength") {
+		req.Header.Set(FieldContentLength, "5")
+	}
 	var buf bytes.Buffer
 	symapi.Assert(req.Write(&buf) == nil, "write-ok")
 	buf.WriteString("$\x00\x00\x01Z")
@@ -91,6 +94,11 @@ func VerifResponseRoundTrip() {
 	}
 	body := symapi.String("body", symapi.IntRange("nbody", 0, NB))
 	resp.Body = body
+	// the header map may be one that was used for a message with a body before (a reply built
+	// from the request it answers): a stale Content-Length must not survive
+	if symapi.Bool("staleContentLength") {
+		resp.Header.Set(FieldContentLength, "5")
+	}
 	var buf bytes.Buffer
 	symapi.Assert(resp.Write(&buf) == nil, "write-ok")
 	buf.WriteString("OPTIONS * RTSP/1.0\r\n")
